@@ -1330,7 +1330,8 @@ var profC11 = profile{pFail: 0.05, pIll: 0.02, pDir: 0.3, pAlias: 0.3, pFrag: 0.
 func init() {
 	props["C01"] = &Prop{Gen: execGen(profC01, 3000, 50000), Exec: execExec, Valid: execValid}
 	props["C06"] = &Prop{Gen: execGen(profC06, 3000, 50000), Exec: execExec, Valid: execValid}
-	props["C08"] = &Prop{Gen: execGen(profC08, 3000, 50000), Exec: execExec, Valid: execValid}
+	c08Base := execGen(profC08, 3000, 50000)
+	props["C08"] = &Prop{Gen: func(r *rand.Rand, tier string) []Case { return c08Unbind(c08Base(r, tier)) }, Exec: execExec, Valid: execValid}
 	props["C09"] = &Prop{Gen: c09Gen, Exec: execExec, Valid: execValid}
 	// C11: executor cases with several calls on one parsed document, and argument values (lists, input
 	// objects with defaults) as literals and variable defaults of a document that is resolved twice
@@ -1352,6 +1353,38 @@ func init() {
 		}}
 	props["C10"] = &Prop{Gen: c10Gen, Exec: execExec, Valid: execValid}
 	_ = fmt.Sprint
+}
+
+// c08Unbind adds fixed cases in which the FIRST member of a union (T27, of which the graph holds no value)
+// is bound to no Go type (section (unbind 27)): the values of the later members, whose Go types are
+// registered, are resolved as their types all the same
+func c08Unbind(cases []Case) []Case {
+	docs := []string{
+		`(f 1 - 3 (args) (dirs) (f 2 - 0 (args) (dirs)) (in 3 20 (dirs) (f 4 - 1 (args) (dirs))) (in 5 21 (dirs) (f 6 - 2 (args) (dirs)))) (f 7 - 4 (args) (dirs) (in 8 21 (dirs) (f 9 - 2 (args) (dirs))) (f 10 - 0 (args) (dirs)))`,
+		`(f 1 - 4 (args) (dirs) (f 2 - 0 (args) (dirs)))`,
+		`(f 1 7 3 (args) (dirs) (in 2 29 (dirs) (f 3 - 0 (args) (dirs)) (in 4 20 (dirs) (f 5 8 1 (args) (dirs)))))`,
+	}
+	for i, d := range docs {
+		for _, st := range []string{"R", "A"} {
+			anyv := "0"
+			if st == "A" {
+				anyv = "1"
+			}
+			text := `(exec (schema (leaf 10 int) (leaf 11 string) (obj 20 (fields (f 1 (n 10) (args))) (ifaces)) (obj 21 (fields (f 2 (n 11) (args))) (ifaces))` +
+				` (obj 27 (fields (f 1 (n 10) (args))) (ifaces)) (union 29 (members 27 20 21))` +
+				` (obj 1 (fields (f 3 (l (n 29)) (args)) (f 4 (n 29) (args))) (ifaces)))` +
+				` (strat (20 ` + st + `) (21 ` + st + `) (27 ` + st + `) (1 R))` +
+				` (graph (node 1 1 (field 3 (const (list (node 2) (node 3) nil (node 2)))) (field 4 (const (node 3)))) (node 2 20 (field 1 (const (int 5)))) (node 3 21 (field 2 (const (str 1)))))` +
+				` (root 1 -1) (any ` + anyv + `) (doc (ops (op query - (vars) ` + d + `)) (frags)) (calls (call - (vars))) (unbind 27))`
+			in, err := sx.Parse(text)
+			if err != nil {
+				panic(err)
+			}
+			cases = append(cases, Case{ID: fmt.Sprintf("u%d%s", i, st), Input: in, Tags: []string{"nontrivial", "first-union-member-unbound"},
+				Human: "union T29 = T27 | T20 | T21 with T27 bound to no Go type; values of T20 and T21"})
+		}
+	}
+	return cases
 }
 
 // c09Gen: the full combination table of the property's quantifier, embedded at three depths on each of
